@@ -534,6 +534,7 @@ class Interp:
         self._from_cache = {}
         self._loops = {}
         self.cmp_oracle = None
+        self.widen_at = 2
 
     # ------------------------------------------------------------ loops (A2)
     def loops_of(self, body):
@@ -1041,7 +1042,9 @@ class Interp:
                 loops = self.loops_of(body)
                 lp = loops.get(bb)
                 if lp is not None:
-                    if n == 2:
+                    if n < self.widen_at:
+                        pass  # still unrolling precisely
+                    elif n == self.widen_at:
                         # widen: forget everything the loop body assigns, run one generic iteration
                         for l in lp["assigned"]:
                             path.store[("L", frame.fid, l)] = TOP("loop")
